@@ -3,6 +3,7 @@ C08 — soft limit never waits for space, never deadlocks, propagates callback e
 -/
 import Lockable.Proofs.ApiLemmas
 import Lockable.Props.C07
+import Lockable.Proofs.Fuel
 namespace Lockable
 
 /-- **Never waits for space**: if no entry is evictable (every entry is locked, awaited, or a placeholder)
@@ -93,5 +94,32 @@ example :
     let a3 := (a2.exec (.drop 1)).1
     let r := a3.exec (.lock .wait 2 9 (.soft 1 [⟨[.keep], false, .err⟩]) 200)
     r.2.res.isAbort = true ∧ r.1.s.order = [5] ∧ absVal r.1.s 5 = some 7 := by decide
+
+/-- **The eviction loop of a lock call ends, whatever the callback does** (keep, replace, stash, remove, in any mix, for any
+number of scripted rounds): after the rounds of the script the callback is the cooperative one, every further round strictly
+decreases the number of evictable entries, and no round increases it. The loop therefore needs at most
+(rounds of the script) + (evictable entries) + 1 iterations — the call never spins for space. -/
+theorem C08_eviction_loop_ends (h k n : Nat) (hn : 1 ≤ n) (fuel : Nat) (a : Api) (script : List Round) (h0 : Nat)
+    (tr : List RoundTrace) (hi : Inv a.s) (hfr : a.s.hs h = none) (hlt : h < h0) (hfree : ∀ x, h0 ≤ x → a.s.hs x = none)
+    (hlen : a.s.order.length ≤ supplyLen) (hfuel : script.length + eligCount a.s < fuel) :
+    (match (a.lockPrelude h k (.soft n script) h0 fuel tr).2.2 with | .bad => False | _ => True) :=
+  lockPrelude_fuel h k n hn fuel a script h0 tr hi hfr hlt hfree hlen hfuel
+
+/-- … so the API layer's soft-limited lock call always comes back with a proper answer (guard, `None`, pending, the callback's
+error or panic, or suspended in an async callback): the model's "out of fuel" outcome is not a behaviour. -/
+theorem C08_lock_never_out_of_fuel (a : Api) (v : Variant) (h k n : Nat) (script : List Round) (h0 : Nat) (hn : 1 ≤ n)
+    (hi : Inv a.s) (hfr : a.s.hs h = none) (hlt : h < h0) (hfree : ∀ x, h0 ≤ x → a.s.hs x = none)
+    (hlen : a.s.order.length ≤ supplyLen) :
+    (match (a.lock v h k (.soft n script) h0).2.res with | .bad => False | _ => True) :=
+  lock_never_bad a v h k n script h0 hn hi hfr hlt hfree hlen
+
+/-- non-vacuity: limit 1, one evictable entry, a callback that keeps its guard three times: the fourth round is the
+cooperative one, the call then gets its key -/
+example :
+    let a0 : Api := Api.init .hashMap
+    let a1 := ((a0.exec (.lock .wait 1 5 .none 100)).1.exec (.op 1 (.insert 7))).1
+    let a2 := (a1.exec (.drop 1)).1
+    let r := a2.exec (.lock .wait 2 9 (.soft 1 [⟨[.keep], false, .ok⟩, ⟨[.keep], false, .ok⟩, ⟨[.keep], false, .ok⟩]) 200)
+    r.2.rounds.length = 4 ∧ r.1.s.order = [9] ∧ r.1.s.hs 2 = some ⟨9, 1, .holding⟩ := by decide
 
 end Lockable
